@@ -6,9 +6,10 @@ struct PathHead {
     node: Node,
     parent: Option<Node>,
     path_length: usize,
-    // Neighbour of the root through which this node was reached (None for the
-    // root itself).
-    branch: Option<Node>,
+    // Branch of the BFS tree this node belongs to: the 1-based position, among
+    // the neighbours of the root, of the neighbour through which the node was
+    // reached (0 for the root itself).
+    branch: usize,
 }
 
 impl PathHead {
@@ -26,7 +27,7 @@ impl PathHead {
                 node: x,
                 parent: Some(self.node),
                 path_length: self.path_length + 1,
-                branch: self.branch.or(Some(x)),
+                branch: self.branch,
             })
     }
 }
@@ -67,7 +68,7 @@ impl BFSContext<'_> {
             node,
             parent: None,
             path_length: 0,
-            branch: None,
+            branch: 0,
         });
         let mut results = BFSResults {
             row_nodes_distance: vec![None; h.num_rows()],
@@ -98,8 +99,8 @@ impl BFSContext<'_> {
         // Branch (neighbour of the root) through which each visited node was
         // first reached. Two paths from the root that meet only form a cycle
         // through the root if they leave the root through different branches.
-        let mut row_branch = vec![None; self.h.num_rows()];
-        let mut col_branch = vec![None; self.h.num_cols()];
+        let mut row_branch = vec![0usize; self.h.num_rows()];
+        let mut col_branch = vec![0usize; self.h.num_cols()];
         let mut best: Option<usize> = None;
         while let Some(head) = self.to_visit.pop_front() {
             if let Some(b) = best {
@@ -109,7 +110,11 @@ impl BFSContext<'_> {
                     break;
                 }
             }
-            for next_head in head.iter(self.h) {
+            for (k, mut next_head) in head.iter(self.h).enumerate() {
+                if head.parent.is_none() {
+                    // each neighbour of the root starts its own branch
+                    next_head.branch = k + 1;
+                }
                 let next_branch = match next_head.node {
                     Node::Row(n) => &mut row_branch[n],
                     Node::Col(n) => &mut col_branch[n],
